@@ -29,6 +29,12 @@ type Config struct {
 	// Systematic part: EnumN forced tape prefixes (may be nil).
 	EnumN  func(tier string) int
 	EnumAt func(tier string, i int) []int
+	// EnumLabels names the draw each value of EnumAt(tier, i) is meant for (required with EnumAt):
+	// the driver fails the check (harness trouble, exit 2) when a forced value would go to a draw
+	// with another label or is not consumed at all.
+	EnumLabels func(tier string, i int) []string
+	// ExhaustLabels does the same for the root prefixes of ExhaustRoots (required with it).
+	ExhaustLabels func(tier string, ri int) []string
 	// Random part: default number of runs per tier (overridden by VERIF_RUNS).
 	Runs map[string]int
 	// Systematic schedule enumeration: for each root prefix (scenario selector
@@ -276,6 +282,22 @@ func (d *driver) runOnce(seed uint64, tape *Tape, replay bool) *Run {
 		synctest.Test(d.t, func(t *testing.T) { body() })
 	}()
 	return r
+}
+
+// checkPrefix: every value of a forced prefix must have gone to the draw it was meant for.
+func (d *driver) checkPrefix(r *Run, labels []string, nforced int, what string) {
+	switch {
+	case labels == nil || len(labels) < nforced:
+		var got []string
+		for i := 0; i < nforced && i < len(r.Tape.Rec); i++ {
+			got = append(got, fmt.Sprintf("%s=%d/%d", r.Tape.Rec[i].L, r.Tape.Rec[i].V, r.Tape.Rec[i].N))
+		}
+		r.Fail("harness/enum-prefix", "%s: the world declares no draw labels for its forced prefix (%d values, %d labels); the draws that consumed it: %v", what, nforced, len(labels), got)
+	case r.Tape.Mismatch != "":
+		r.Fail("harness/enum-prefix", "%s: %s", what, r.Tape.Mismatch)
+	case r.Tape.ForcedUsed() < nforced && r.Violation() == nil:
+		r.Fail("harness/enum-prefix", "%s: only %d of %d forced values were drawn", what, r.Tape.ForcedUsed(), nforced)
+	}
 }
 
 type stopRun struct{}
@@ -595,7 +617,13 @@ func Main(t *testing.T, cfg Config) {
 				i := enumI
 				enumI += nshards
 				seed := Mix(base, cfg.Prop+"/enum", uint64(i))
-				r := d.runOnce(seed, NewGenTape(seed, cfg.EnumAt(tier, i)), false)
+				forced := cfg.EnumAt(tier, i)
+				var labels []string
+				if cfg.EnumLabels != nil {
+					labels = cfg.EnumLabels(tier, i)
+				}
+				r := d.runOnce(seed, NewGenTape(seed, forced).ExpectLabels(labels), false)
+				d.checkPrefix(r, labels, len(forced), fmt.Sprintf("enumerated case %d", i))
 				if !account(r, true, i) {
 					res.EnumComplete = false
 					return false
@@ -613,7 +641,12 @@ func Main(t *testing.T, cfg Config) {
 				}
 				root := roots[ri]
 				seed := Mix(base, cfg.Prop+"/exhaust", uint64(ri))
-				r := d.runOnce(seed, NewEnumTape(prefix), false)
+				var labels []string
+				if cfg.ExhaustLabels != nil {
+					labels = cfg.ExhaustLabels(tier, ri)
+				}
+				r := d.runOnce(seed, NewEnumTape(prefix).ExpectLabels(labels), false)
+				d.checkPrefix(r, labels, len(root), fmt.Sprintf("schedule enumeration root %d", ri))
 				leaves++
 				res.ExhaustRuns++
 				if !account(r, true, ri) {
